@@ -295,12 +295,13 @@ Lemma alter_has_default g tn rc mc d : compare_server_default_col g rc mc = Some
 Proof. intros H. unfold alter_column. rewrite H. destruct (compare_nullable rc mc); destruct (compare_type_col g rc mc);
     eexists; (split; [left; reflexivity|]); simpl; auto. Qed.
 
-Lemma csd_detect g x d : compare_server_default g = true -> dok_col x ->
+Lemma csd_detect g x d : compare_server_default g = true -> dok_col x -> is_computed (c_default x) = false -> is_computed d = false ->
   negb (opt_eqb (list_eqb N.eqb) (option_map (fun o => norm_default (d_txt o)) (c_default x)) (option_map (fun o => norm_default (d_txt o)) d)) = true ->
   compare_server_default_col g (reflect_col x) (set_default d x) = Some d.
-Proof. intros Hg Hok H. unfold compare_server_default_col, ctx_compare_server_default, sqlite_compare_server_default, dok_col in *.
+Proof. intros Hg Hok Hc1 Hc2 H. unfold compare_server_default_col, ctx_compare_server_default, sqlite_compare_server_default, dok_col in *.
   cbn [reflect_col set_default c_default]. rewrite Hg. cbn [negb].
-  destruct (c_default x) as [d0|]; destruct d as [d1|]; cbn [option_map opt_eqb] in *; try discriminate; auto.
+  destruct (c_default x) as [d0|]; destruct d as [d1|]; cbn [option_map opt_eqb] in *; try discriminate;
+    rewrite ?is_computed_reflect', ?Hc1, ?Hc2; auto.
   - rewrite default_quiet; auto. rewrite H. auto.
 Qed.
 
@@ -340,13 +341,14 @@ Proof. intros [HAn HAt] HAd Ha He k Hk. destruct m as [t|n0|t c|t c|t c|t c y|t 
   - (* flip nullable *) destruct Hk as [<-|[]]. apply in_table_some in Ha. destruct Ha as [tb [Htb Hp]].
     apply memN_true_kfind in Hp. destruct Hp as [x Hx].
     eapply column_modified_detected; eauto. apply (alter_has_null g t (reflect_col x) (flip_null x) (negb (c_null x))).
-    unfold compare_nullable. cbn [reflect_col flip_null c_null]. rewrite eqb_negb_false. auto.
+    unfold compare_nullable. cbn [reflect_col flip_null c_null c_null_set c_default negb]. rewrite eqb_negb_false, andb_false_r. auto.
   - (* change type *) destruct Hk as [<-|[]]. apply in_table_some in Ha. destruct Ha as [tb [Htb Hp]].
     destruct (kfind c_name c (t_cols tb)) as [x|] eqn:Hx; [|congruence]. apply negb_true_iff in Hp.
     eapply column_modified_detected; eauto. apply (alter_has_type g t (reflect_col x) (set_ty y x) y).
     unfold compare_type_col, ctx_compare_type, impl_compare_type. cbn [reflect_col set_ty c_ty]. rewrite He, Hp. auto.
   - (* change default *) destruct Hk as [<-|[]]. apply in_table_some in Ha. destruct Ha as [tb [Htb Hp]].
     destruct (kfind c_name c (t_cols tb)) as [x|] eqn:Hx; [|congruence].
+    rewrite !andb_true_iff, !negb_true_iff in Hp. destruct Hp as [[Hc1 Hc2] Hp]. apply negb_true_iff in Hp.
     eapply column_modified_detected; eauto. apply (alter_has_default g t (reflect_col x) (set_default d x) d).
     apply csd_detect; auto. apply (HAd tb); [apply kfind_some in Htb|apply kfind_some in Hx]; tauto.
   - (* add cons *) destruct Hk as [<-|[]]. apply in_table_some in Ha. destruct Ha as [tb [Htb Hp]].
